@@ -87,8 +87,7 @@ def _ast_inputs(ctx, nb, ndouble, sim_seed):
             res["sim_err"] = e
     th = threading.Thread(target=sim)
     th.start()
-    single = ctx.tlc("MC_SwayMutate", "MC_SwayMutate", workers=3, env={"BASE": bp}, xss="512m", name="mutate1",
-                     coverage=ctx.quick, timeout=3000)
+    single = ctx.tlc("MC_SwayMutate", "MC_SwayMutate", workers=3, env={"BASE": bp}, xss="512m", name="mutate1", timeout=3000)
     th.join()
     if "sim_err" in res:
         raise res["sim_err"]
@@ -163,22 +162,42 @@ def run(ctx):
             results[(a["id"], profile, engine)] = (o, cx.detail(r["built"], r["crashed"]))
 
     normal = [a for a in inputs if a["class"] != "finding_reproducer"]
-    take(cx.run_fast(ctx, normal, "debug", procs=4), normal, "debug", "vh-crash")
+    # the complete forc path (several packages per fresh vh-exec process), both profiles, on a slice -- concurrently
+    full_inputs = slice_for_seed(normal, ctx.seed + 2, 4 if ctx.quick else 40)
+    full_res = {}
+
+    def full_path(subset, profile):
+        jobs = [dict({k: v for k, v in a.items() if k in ("files", "manifest")}, id=a["id"], profile=profile, run=False, want=["diag"])
+                for a in subset]
+        rp = run_packages(ctx, jobs, procs=2)
+        return {k: {"built": v["built"], "crashed": v["crashed"]} for k, v in rp.items()}
+
+    def full_thread():
+        try:
+            for profile in ("debug", "release"):
+                full_res[profile] = full_path(full_inputs, profile)
+        except Exception as e:
+            full_res["err"] = e
+    ctx.build_vh("vh-exec")
+    ctx.build_vh("vh-crash")
+    th = threading.Thread(target=full_thread)
+    th.start()
+    nproc = 3 if ctx.quick else 4
+    take(cx.run_fast(ctx, normal, "debug", procs=nproc), normal, "debug", "vh-crash")
     rel_inputs = slice_for_seed(normal, ctx.seed + 1, max(16, len(normal) // 12))
-    take(cx.run_fast(ctx, rel_inputs, "release", procs=4), rel_inputs, "release", "vh-crash")
+    take(cx.run_fast(ctx, rel_inputs, "release", procs=nproc), rel_inputs, "release", "vh-crash")
     # the kept reproducers, both profiles, with a short time-out (the *_hang.sw ones are known not to terminate)
     for profile in ("debug", "release"):
         take(cx.run_fast(ctx, fnd, profile, procs=2, pkg_timeout=60, chunk=50), fnd, profile, "vh-crash")
     rel_inputs = rel_inputs + fnd
-    # the complete forc path (several packages per fresh vh-exec process), both profiles, on a slice
-    full_inputs = slice_for_seed([a for a in inputs if a["class"] != "finding_reproducer"], ctx.seed + 2, 4 if ctx.quick else 40)
-    unsupported = [a for a in inputs if results[(a["id"], "debug", "vh-crash")][0] == "unsupported"]
+    th.join()
+    if "err" in full_res:
+        raise full_res["err"]
     for profile in ("debug", "release"):
-        subset = full_inputs + (unsupported if profile == "debug" else [])
-        jobs = [dict({k: v for k, v in a.items() if k in ("files", "manifest")}, id=a["id"], profile=profile, run=False, want=["diag"])
-                for a in subset]
-        rp = run_packages(ctx, jobs, procs=3 if ctx.quick else 4)
-        take({k: {"built": v["built"], "crashed": v["crashed"]} for k, v in rp.items()}, subset, profile, "vh-exec")
+        take(full_res[profile], full_inputs, profile, "vh-exec")
+    unsupported = [a for a in inputs if results[(a["id"], "debug", "vh-crash")][0] == "unsupported"]
+    if unsupported:
+        take(full_path(unsupported, "debug"), unsupported, "debug", "vh-exec")
     # ------------------------------------------------------------------ confirm every suspicious result alone
     suspicious = sorted(k for k, (o, _d) in results.items() if o not in ("artifacts", "diagnostics", "unsupported"))
     seen = set()
@@ -266,6 +285,11 @@ def run(ctx):
             for kind in a.get("kinds", []):
                 kk = by_kind.setdefault(kind, {})
                 kk[o] = kk.get(o, 0) + 1
+    by_part = {}
+    for a in inputs:
+        if a.get("kinds"):
+            for part in re.findall(r"@(tests|prog\.fns|prog\.structs|prog\.enums|prog\.kind)", a["key"]):
+                by_part[part] = by_part.get(part, 0) + 1
     kinds_seen = sorted(by_kind)
     missing = sorted(set(kinds_spec) - set(kinds_seen)) if not ctx.quick else []
     if not ctx.quick and (not kinds_spec or missing):
@@ -296,7 +320,8 @@ def run(ctx):
         "engines_disagree": engines_disagree[:50],
         "rejected_groups": {k: {"count": len(v), "first": v[0][0]["key"]} for k, v in groups.items()},
         "binding_selftest": selftest,
-        "action_coverage": dict(mc.coverage_actions(), **tlc1.coverage_actions()),
+        "action_coverage": mc.coverage_actions(),
+        "mutants_by_part": by_part,
         "samples": samples,
     }, assumptions=[
         "the bulk of the pool is compiled by vh-crash: forc_pkg::BuildPlan + forc_pkg::compile per package with the std namespace "
